@@ -85,6 +85,19 @@ def install():
         missing.append('EventBus.process_event')
 
 
+def _project(rec):
+    lock = S._global_eventbus_lock
+    sem = getattr(lock, '_semaphore', None) if lock is not None else None
+    return {
+        'unf': {n: (b.event_queue._unfinished_tasks if b.event_queue is not None else 0) for n, b in rec.buses.items()},
+        'idle': {n: bool(b._on_idle is not None and b._on_idle.is_set()) for n, b in rec.buses.items()},
+        'running': {n: bool(b._is_running) for n, b in rec.buses.items()},
+        'semv': sem._value if sem is not None else 1,
+        'depth': lock._depth if lock is not None else 0,
+    }
+
+
 def attach(rec):
     rec.par_owner = {}
     rec.probe_missing = list(missing)
+    rec.extra = {'project': _project}
